@@ -28,6 +28,8 @@ pub enum Event {
     Marker { cmr: [u8; 32], args: Tree },
     /// an assertion whose hidden CMR is neither `fail 0` nor a known marker
     OtherAssert { cmr: [u8; 32] },
+    /// a witness node was executed and delivered this value
+    Witness { value: Tree },
 }
 
 impl Event {
@@ -48,6 +50,7 @@ impl Event {
                 format!("marker {} {}", &crate::bridge::hex(&cmr[..4]), args.brief())
             }
             Event::OtherAssert { cmr } => format!("other-assert {}", crate::bridge::hex(&cmr[..4])),
+            Event::Witness { value } => format!("witness {}", value.brief()),
         }
     }
 }
@@ -181,7 +184,11 @@ impl<'a> TraceMachine<'a> {
                 }
                 _ => Err(Stop::Unsupported("assertr on non-product".into())),
             },
-            Inner::Witness(v) => Ok(tree_of(v.as_ref())),
+            Inner::Witness(v) => {
+                let t = tree_of(v.as_ref());
+                self.push(Event::Witness { value: t.clone() })?;
+                Ok(t)
+            }
             Inner::Word(w) => Ok(tree_of(w.as_value().as_ref())),
             Inner::Fail(_) => {
                 self.push(Event::Fail)?;
